@@ -153,6 +153,13 @@ pub fn expected(spec: &BookSpec, kind: SaveKind) -> Result<Arc<Expected>, Troubl
     if let Some(e) = map.lock().unwrap().get(&(spec.clone(), kind)) {
         return Ok(e.clone());
     }
+    let e = Arc::new(expected_uncached(spec, kind)?);
+    map.lock().unwrap().insert((spec.clone(), kind), e.clone());
+    Ok(e)
+}
+
+/// (the generated sink cases use this directly: their specs are not worth caching)
+pub fn expected_uncached(spec: &BookSpec, kind: SaveKind) -> Result<Expected, Trouble> {
     let bytes = match guard(|| save_to_vec(&build_book(spec), kind)) {
         Ok(Ok(b)) => b,
         Ok(Err(e)) => return Err(Trouble(format!("healthy in-memory save of {:?} fails: {:?}", spec, e))),
@@ -163,9 +170,7 @@ pub fn expected(spec: &BookSpec, kind: SaveKind) -> Result<Arc<Expected>, Troubl
     } else {
         Some(read_complete_xlsx(&bytes).map_err(|e| Trouble(format!("healthy in-memory save of {:?} does not read back: {}", spec, e)))?)
     };
-    let e = Arc::new(Expected { bytes, dump });
-    map.lock().unwrap().insert((spec.clone(), kind), e.clone());
-    Ok(e)
+    Ok(Expected { bytes, dump })
 }
 
 /// Is `bytes` a complete new file for (spec, kind)?
@@ -485,7 +490,7 @@ fn mode_tag(m: SinkMode) -> &'static str {
 }
 
 fn check_sink(c: &SinkCase, obs: &mut Obs) -> Verdict {
-    let exp = match expected(&c.spec, c.kind) {
+    let exp = match expected_uncached(&c.spec, c.kind) {
         Ok(e) => e,
         Err(t) => return Verdict::Discard(t.0),
     };
@@ -562,7 +567,7 @@ fn subs() -> Vec<Box<dyn DynSub>> {
     vec![Box::new(Sub {
         name: "sink",
         strategy: sink_case,
-        cases: (160, 4000),
+        cases: (600, 6000),
         check: check_sink,
         max_shrink_iters: 600,
     })]
@@ -947,7 +952,7 @@ fn extra(ctx: &Ctx) {
             }
         }
         let mut x = splitmix(ctx.seed ^ 0xA11CE ^ (i as u64) << 8);
-        let want = if thorough { 200 } else if cb.kind == SaveKind::Password { 20 } else { 28 };
+        let want = if thorough { 200 } else if cb.kind == SaveKind::Password { 40 } else { 64 };
         for _ in 0..want {
             x = splitmix(x);
             generated.insert(1 + x % full.max(2).saturating_sub(1));
@@ -1007,7 +1012,7 @@ fn extra(ctx: &Ctx) {
                     let chosen = if thorough {
                         pick_ks(ks, 2500, 600, 1300, splitmix(ctx.seed ^ fnv(name.as_bytes()) ^ i as u64))
                     } else {
-                        pick_ks(ks, 12, 4, 8, splitmix(ctx.seed ^ fnv(name.as_bytes()) ^ i as u64))
+                        pick_ks(ks, 12, 8, 40, splitmix(ctx.seed ^ fnv(name.as_bytes()) ^ i as u64))
                     };
                     if chosen.len() < ks.len() {
                         complete_here = false;
@@ -1035,7 +1040,7 @@ fn extra(ctx: &Ctx) {
                         _ => None,
                     };
                     if let Some((errno, persistent)) = plan {
-                        let chosen = if thorough { pick_ks(ks, 400, 100, 200, splitmix(ctx.seed ^ 77 ^ i as u64)) } else { pick_ks(ks, 8, 3, 4, splitmix(ctx.seed ^ 77 ^ i as u64)) };
+                        let chosen = if thorough { pick_ks(ks, 400, 100, 200, splitmix(ctx.seed ^ 77 ^ i as u64)) } else { pick_ks(ks, 8, 6, 24, splitmix(ctx.seed ^ 77 ^ i as u64)) };
                         for k in chosen {
                             for p in [Pre::Old { len: 1500 }, Pre::Absent] {
                                 errno_cases.push(PathCase {
@@ -1092,8 +1097,8 @@ fn extra(ctx: &Ctx) {
             spec_a: a,
             spec_b: b,
             iterations: match kind {
-                SaveKind::Password => ctx.tier.pick(8, 60),
-                _ => ctx.tier.pick(40, 1200),
+                SaveKind::Password => ctx.tier.pick(12, 80),
+                _ => ctx.tier.pick(120, 1500),
             },
             old_len: 30_000,
             observers: 2,
@@ -1104,7 +1109,7 @@ fn extra(ctx: &Ctx) {
                 kind,
                 spec_a: spec(2, 2, 6, s(3)),
                 spec_b: spec(3, 2, 8, s(4)),
-                iterations: ctx.tier.pick(60, 2000),
+                iterations: ctx.tier.pick(200, 3000),
                 old_len: 3000,
                 observers: 2,
             });
